@@ -42,3 +42,6 @@ def run(ctx, rep):
     from rules import c12 as _c12
     common.share(_c12, ctx, rep, {"C12-FRAME", "C12-EXTEND"}, key_prefixes=["with_result"],
                  floors={"C12-FRAME": 0, "C12-EXTEND": 0})
+    # ... and no other way of deriving a context (the splitter's per-element contexts, a new constructor) drops the
+    # --set bindings: the stages behind it are evaluated in that context
+    common.share(_c12, ctx, rep, {"C12-CTOR-CENSUS"})
